@@ -90,7 +90,19 @@ def exc_ctor(name):
     return f
 
 
+def aq_base(E, args, kwargs, node):
+    _assumed(E, 'Acquisition.aq_base(x): returns the unwrapped object, does not raise, calls nothing')
+    f = z3.Function('aq_base', Val, Val)
+    return VO_term(f(E.to_val(args[0])), E.fresh('aqbase'))
+
+
+def py_eval(E, args, kwargs, node):
+    # eval(code, globals): running compiled (restricted) code is an opaque call
+    return E.opaque_call(VO('eval'), list(args), {}, node, label='eval(code)')
+
+
 TABLE = {
+    'Acquisition.aq_base': aq_base,
     'zExceptions.Unauthorized': exc_ctor('Unauthorized'),
     'sys.exc_info': sys_exc_info,
     'io.StringIO': stringio_new,
